@@ -81,6 +81,15 @@ fn alphabet0(b: &Built) -> Vec<Op> {
         a.push(Op::InitTa { off, dynamic: true, idempotent: false });
         a.push(Op::InitTa { off, dynamic: false, idempotent: false });
     }
+    if b.w.pool.tick_spacing == 64 && !b.name.contains("chain") {
+        // a tick array whose start index is a multiple of the spacing but not of 88 spacings (-192 covers ticks -192..=5376, i.e.
+        // both bounds of position 0): creating it must be refused; if it exists, a deposit that names it books position 0's ticks
+        // where no swap will ever look
+        a.push(Op::InitTaUnaligned { spacings: -3, dynamic: false });
+        a.push(Op::InitTaUnaligned { spacings: -3, dynamic: true });
+        a.push(Op::IncVia { pos: 0, liq: 5_000, lower_start: -192, upper_start: -192, v2: true });
+        a.push(Op::IncVia { pos: 0, liq: 6_000, lower_start: -192, upper_start: -192, v2: false });
+    }
     if b.w.pool.tick_spacing == 64 {
         // reposition_liquidity_v2: re-range position 0 (new bounds share tick array 0 with the other positions' bounds) and back
         a.push(Op::Repos { pos: 0, lower: -64, upper: 192, liq: stdworlds::BIG / 2 });
